@@ -57,9 +57,9 @@ def o_cohere(spec, r, extra):
     return any(abs(v - 1.0) > 1e-6 for v in out), f"mscohere(x, {spec[1][1]}*x) at signal level {max(abs(v) for v in spec[0][1]):.1e} = {out}; a scaled copy must give 1 at every frequency"
 ORACLES = {'welch': o_welch, 'cohere': o_cohere}
 
-def job_welch(res, cplx, nfft, winlen, noverlap, nseg, wkind, scale):
+def job_welch(res, cplx, nfft, winlen, noverlap, nseg, wkind, scale, tail=1):
     mod, so = load(HARNESS); w_ = 2 if cplx else 1
-    stride = winlen - noverlap; nx = winlen + (nseg - 1) * stride + (1 if stride > 1 else 0)
+    stride = winlen - noverlap; nx = winlen + (nseg - 1) * stride + (1 if (stride > 1 and tail) else 0)      # tail = 0: the last segment ends exactly on the last sample
     nout = nfft if cplx else nfft // 2 + 1
     xn = [f'x{i}' for i in range(nx * w_)]
     label = f"welch {'cmplx' if cplx else 'real'} nfft={nfft} win={WN[wkind]}({winlen}) noverlap={noverlap} segs={nseg} {'power' if scale else 'psd'}"
@@ -135,13 +135,13 @@ def job_welch(res, cplx, nfft, winlen, noverlap, nseg, wkind, scale):
         if ground_le(res, abs(val - want), tolp * want, 'power'): res.ob(True, 'POLY-ground', f'{label}: unit-amplitude sinusoid centred on bin {k0} reports {float(val):.6g} (mean-square value {float(want)}) at its peak')
         else: cex([float(env[s]) for s in xn], f'{label}: bin-centred unit sinusoid reports {float(val):.4g} instead of {float(want)}', 'welch:power')
 
-def job_cohere(res, nfft, winlen, noverlap, nseg, wkind):
+def job_cohere(res, nfft, winlen, noverlap, nseg, wkind, after=False):
     """y = c*x with symbolic c: numerator |Pxy|^2 and denominator Pxx*Pyy of the returned quotient are the same polynomial => coherence == 1 wherever defined"""
     mod, so = load(HARNESS); stride = winlen - noverlap; nx = winlen + (nseg - 1) * stride; nout = nfft // 2 + 1
-    xn = [f'x{i}' for i in range(nx)]; label = f'mscohere(x, c*x) nfft={nfft} win={WN[wkind]}({winlen}) noverlap={noverlap} segs={nseg}'
+    xn = [f'x{i}' for i in range(nx)]; label = f'mscohere(x, c*x) nfft={nfft} win={WN[wkind]}({winlen}) noverlap={noverlap} segs={nseg}' + (' after an unrelated call with a longer window' if after else ''); fn = 'h_mscohere_after' if after else 'h_mscohere_scaled'
     m = Machine(mod, max_steps=200_000_000)
     spec = [('pf64', [fsym(s) for s in xn]), ('f64', fsym('c')), ('i32', nx), ('i32', wkind), ('i32', winlen), ('i32', noverlap), ('i32', nfft), ('pf64', [0.0] * nout)]
-    try: r, outs, _ = sym_call(m, 'h_mscohere_scaled', spec, 'i32')
+    try: r, outs, _ = sym_call(m, fn, spec, 'i32')
     except (Throw, UB) as e: res.absorb(m); res.inc(f'{label}: {type(e).__name__}'); return
     res.absorb(m)
     for k, o in enumerate(outs[-1][:nout]):
@@ -153,8 +153,8 @@ def job_cohere(res, nfft, winlen, noverlap, nseg, wkind):
         worst = max([abs(num.get(k_, 0) - den.get(k_, 0)) / max(abs(den.get(k_, 0)), abs(num.get(k_, 0))) for k_ in mono if max(abs(den.get(k_, 0)), abs(num.get(k_, 0))) > big * Fraction(1, 10 ** 12) or len(k_) < 4] + [Fraction(0)])
         if ground_le(res, worst, Fraction(1, 10 ** 9), 'coh'): res.ob(True, 'POLY-ground', f'{label}: forall x, c. |Pxy[{k}]|^2 and Pxx[{k}]*Pyy[{k}] are the same homogeneous polynomial (no level-dependent term): coherence == 1 at every signal level (worst relative coefficient gap {float(worst):.2g})')
         else:
-            xv = [1e-7 * (math.sin(1.3 * i) + 0.2) for i in range(nx)]
-            confirm(res, PID, HARNESS, 'h_mscohere_scaled', [('pf64', xv), ('f64', 3.0), ('i32', nx), ('i32', wkind), ('i32', winlen), ('i32', noverlap), ('i32', nfft), ('pf64', [0.0] * nout)], 'i32', 'cohere', ORACLES, 'mscohere:scaled-copy',
+            xv = [(1e-7 if not after else 1.0) * (math.sin(1.3 * i) + 0.2) for i in range(nx)]
+            confirm(res, PID, HARNESS, fn, [('pf64', xv), ('f64', 3.0), ('i32', nx), ('i32', wkind), ('i32', winlen), ('i32', noverlap), ('i32', nfft), ('pf64', [0.0] * nout)], 'i32', 'cohere', ORACLES, 'mscohere:scaled-copy' + (':history' if after else ''),
                     f'{label}: bin {k}: numerator and denominator of the coherence differ (relative coefficient gap {float(worst):.3g}): a scaled copy is not reported as fully coherent at every level'); return
 
 JOBFNS = {'welch': job_welch, 'cohere': job_cohere}
@@ -180,6 +180,12 @@ def main(tier, seed):
                             jobs.append((f'welch c={cplx} nfft={nfft} w={winlen}/{nov} k={wkind} s={scale} seg={nseg}', 'welch', dict(cplx=cplx, nfft=nfft, winlen=winlen, noverlap=nov, nseg=nseg, wkind=wkind, scale=scale), 1500))
     for (nfft, winlen, nov, nseg) in ([(4, 4, 2, 2), (4, 3, 1, 2)] if q else [(4, 4, 2, 2), (4, 3, 1, 2), (8, 8, 4, 2), (8, 5, 2, 3)]):
         jobs.append((f'mscohere scaled copy nfft={nfft}', 'cohere', dict(nfft=nfft, winlen=winlen, noverlap=nov, nseg=nseg, wkind=0), 1500))
+    for (nfft, winlen, nov, nseg) in ([(4, 3, 1, 2), (8, 5, 2, 2)] if q else [(4, 3, 1, 2), (4, 2, 0, 3), (8, 5, 2, 2), (8, 6, 3, 2), (16, 9, 3, 2)]):
+        jobs.append((f'mscohere after history nfft={nfft} w={winlen}', 'cohere', dict(nfft=nfft, winlen=winlen, noverlap=nov, nseg=nseg, wkind=0, after=True), 1500))
+    for cplx in (0, 1):
+        for (nfft, winlen, nov) in ([(4, 4, 2), (8, 8, 4), (8, 6, 2)] if q else [(4, 4, 2), (4, 4, 0), (8, 8, 4), (8, 8, 0), (8, 6, 2), (8, 5, 1), (16, 16, 8)]):
+            for nseg in (2, 3):
+                jobs.append((f'welch aligned c={cplx} nfft={nfft} w={winlen}/{nov} seg={nseg}', 'welch', dict(cplx=cplx, nfft=nfft, winlen=winlen, noverlap=nov, nseg=nseg, wkind=0, scale=0, tail=0), 1500))
     jobs.sort(key=lambda j: -(j[2]['nfft'] * (2 if j[2].get('cplx') else 1)))
     return run_property(PID, tier, HARNESS, jobs, JOBFNS,
         level_text='welch (real and complex) is executed with all samples symbolic; each returned value is extracted as an exact quadratic form of the input and must equal, for every input, the '
